@@ -1,13 +1,19 @@
 #!/bin/bash
-# tools/all_seeds.sh [tier] : every seeded change against its property's check on the current tree (apply, run, undo)
-TIER="${1:-quick}"
+# tools/all_seeds.sh [tier] [jobs] : every seeded change against its property's check, each on its own scratch worktree of /repo
+# (tools/try_seed_scratch.sh); the changes of one property run one after the other, up to [jobs] properties at a time
+TIER="${1:-quick}"; JOBS="${2:-4}"
 cd /verif
-for d in seeded/*/; do
-  id=$(basename $d); prop=${id%%-*}
-  if ! git -C /repo apply --check /verif/$d/patch.diff 2>/dev/null; then echo "$id patch-does-not-apply-any-more"; continue; fi
-  out=$(tools/try_seed.sh /verif/$d/patch.diff $prop $TIER 2>&1 | grep -v conda)
-  rc=$(echo "$out" | grep -o "exit=[0-9]*" | head -1)
-  nv=$(echo "$out" | grep -c "^VIOLATION")
-  echo "$id $rc violations=$nv"
-done
-git -C /repo status --short
+props=$(ls seeded | sed 's/-.*//' | sort -u)
+run_prop() {
+  p=$1
+  for d in seeded/$p-*/; do
+    id=$(basename $d)
+    if ! git -C /repo apply --check /verif/$d/patch.diff 2>/dev/null; then echo "$id patch-does-not-apply-any-more"; continue; fi
+    out=$(tools/try_seed_scratch.sh /verif/$d/patch.diff $p $TIER 2>&1 | grep -v conda)
+    rc=$(echo "$out" | grep -o "exit=[0-9]*" | head -1)
+    nv=$(echo "$out" | grep -c "^VIOLATION")
+    echo "$id $rc violations=$nv"
+  done
+}
+export -f run_prop; export TIER
+echo $props | tr ' ' '\n' | xargs -P "$JOBS" -I{} bash -c 'run_prop {}'
